@@ -259,8 +259,15 @@ var imageClasses = []string{"valid", "valid", "needs-config", "multi", "no-manif
 
 // GenPKG generates (Cluster)Packages, the images behind them and spec edits.
 func GenPKG(w *World, maxEdits int, opts ...string) *Scenario {
-	noErrorLoops := len(opts) > 0 && opts[0] == "no-error-loops"
-	hostile := len(opts) > 0 && opts[0] == "hostile"
+	has := func(o string) bool {
+		for _, x := range opts {
+			if x == o {
+				return true
+			}
+		}
+		return false
+	}
+	noErrorLoops, hostile, finalDelete := has("no-error-loops"), has("hostile"), has("final-delete")
 	s := w.Scn
 	sc := &Scenario{Family: "S-PKG", Facts: map[string]any{}}
 	reg := &Registry{w: w, Images: map[string]*PkgImage{}}
@@ -364,6 +371,13 @@ func GenPKG(w *World, maxEdits int, opts ...string) *Scenario {
 				_, _ = w.TP("user", w.Mgmt).Mutate(key, func(o store.Obj) { delete(o["spec"].(map[string]any), "paused") })
 			}})
 		}
+	}
+	if finalDelete && s.Chance(2, 3, "final-delete") {
+		key := g.Keys[s.Intn(len(g.Keys), "delete-target")]
+		prop := []string{"Background", "Foreground"}[s.Intn(2, "delete-propagation")]
+		sc.UserOps = append(sc.UserOps, UserOp{Label: fmt.Sprintf("delete %s (%s)", key.Name, prop), Do: func(w *World) {
+			_ = w.TP("user", w.Mgmt).Delete(key, prop)
+		}})
 	}
 	wl := &WorkloadAgent{Cluster: "mgmt", Policy: map[store.Key]string{}, Budget: s.Intn(4, "workload-budget")}
 	w.AddAgent(wl)
